@@ -988,8 +988,20 @@ def r4(ctx):
         after = g.reachable([b for n_ in calln for b in normal_succ(g, n_)], avoid=fors, edge_ok=no_exc)
         if g.exit in after:
             bad.append("the loop over the recorded paths is left after the first path")
+    # (str2-z2, seed C17_2) the descent is not an alternative to the wrapper's own parameter: a wrapper can have BOTH (a
+    # closure value used as a literal and through an attribute / item: `day` and `day.year`, `ids` and `ids[0]`), so every
+    # normal exit of the method has been through the loop, whatever was decided about the own parameter.  The only outcomes
+    # that may skip it are those that say there are no recorded paths (`if not <bind paths>: return`).
+    if fors:
+        cut = _falsy_edges(S, "_bind_paths") | _falsy_edges(S, "_sa__bind_paths")
+        wskip = g.witness([g.entry], [g.exit], avoid=fors, edge_ok=lambda a, b, lab: lab != "exc" and (a, lab) not in cut)
+        if wskip is not None:
+            tests = [unparse(g.nodes[i].stmt.test)[:50] for i in wskip if g.nodes[i].kind == "test" and hasattr(g.nodes[i].stmt, "test")]
+            why = f" (decided by `{tests[-1]}`)" if tests else ""
+            bad.append(f"the method can return without descending into the recorded attribute / item paths{why}: a closure value used both "
+                       "as a literal and through an attribute (`lambda: t.c.y == day.year and t.c.d <= day`) keeps the first invocation's `day.year`")
     ctx.check(not bad, f"{f.key}:bind-paths:every-path-visited", "; ".join(bad) + " -- lambda: and_(t.c.a == o.x, t.c.b == o.y): o.y keeps its first value",
-              "every recorded path, every iteration", loc(f, lp))
+              "every recorded path, every iteration, on every normal path through the method", loc(f, lp))
     # ---- P4: _add_getter
     fa = ctx.func(f"{PW}._add_getter")
     SA, ga = _S(ctx, fa), None
@@ -1235,17 +1247,52 @@ def r5(ctx):
         base = [a for a in alts if not _bare_cyc(a)] or alts         # what the accumulator starts from / is rebuilt as
         own_ok = all(any(_attr_is(n, "closure_cache_key", "self") for n in ast.walk(a)) for a in base)
         code_ok = all(any(_attr_is(n, "__code__") and _attr_is(getattr_norm(n)[0], "fn", "self") for n in ast.walk(a)) for a in base)
-        par_ok = any(any(_attr_is(n, "closure_cache_key") and not _attr_is(n, "closure_cache_key", "self") and
-                         (has_attr(n, "parent_lambda") or _has_cyc(n)) for n in ast.walk(a)) for a in alts)
-        parcode_ok = any(any(_attr_is(n, "__code__") and (has_attr(n, "parent_lambda") or _has_cyc(n)) for n in ast.walk(a)) for a in alts)
+        # (str2-z2, seed C17_1) "the parents" is the whole chain: a component read off `self.parent_lambda` only names the
+        # immediate parent; the chain is covered when the object it is read off is also the loop carried walker
+        # (`p = p.parent_lambda`) or when the parent is asked for its own key (recursion).  The closure keys of the chain
+        # may instead arrive inside self.closure_cache_key: _retrieve_tracker_rec publishes parent key + own key (C17-R2
+        # judges that composition), which is transitive by construction; code objects have no such second route.
+        deleg = _chain_reach(n_ for a in alts for n_ in ast.walk(a) if isinstance(n_, ast.Call) and isinstance(n_.func, ast.Attribute)
+                             and n_.func.attr in ("_gen_cache_key", "_generate_cache_key") for n_ in [n_.func.value])
+        ck = _chain_reach(getattr_norm(n)[0] for a in alts for n in ast.walk(a)
+                          if _attr_is(n, "closure_cache_key") and not _attr_is(n, "closure_cache_key", "self"))
+        cd = _chain_reach(getattr_norm(getattr_norm(n)[0])[0] for a in alts for n in ast.walk(a)
+                          if _attr_is(n, "__code__") and getattr_norm(getattr_norm(n)[0]) is not None and _attr_is(getattr_norm(n)[0], "fn")
+                          and not _attr_is(getattr_norm(n)[0], "fn", "self"))
+        published = _published_parent_prefix(ctx)
         if not own_ok:
             bad.append("the key lacks the element's closure cache key (structure-changing closure values)")
         if not code_ok:
             bad.append("the key lacks the lambda's code object")
-        if not par_ok:
-            bad.append("the key lacks the parent elements' closure cache keys")
-        if not parcode_ok:
+        if not (published or deleg == "chain" or ck == "chain"):
+            bad.append("the key lacks the parent elements' closure cache keys" if ck is None and deleg is None else
+                       "only the immediate parent's closure cache key is part of the key and the published closure key does not carry "
+                       "the chain either: elements above it are not represented")
+        if deleg == "chain" or cd == "chain":
+            pass
+        elif cd is None and deleg is None:
             bad.append("the key lacks the parent lambdas' code objects")
+        elif cd == "first" or deleg == "first":
+            bad.append("only the immediate parent's code object is part of the key, the lambdas above it are not: two statements of three "
+                       "or more links that differ only in the root lambda (another table, no closure variable) share one compiled form "
+                       "and the second executes the first one's SQL")
+        else:
+            bad.append("the walk over the parent lambdas does not start at the immediate parent: its code object is missing from the key")
+        # the contribution of an ancestor is conditional on nothing but its existence
+        for n in g4.nodes:
+            if n.kind != "stmt" or not isinstance(n.stmt, (ast.Assign, ast.AugAssign, ast.AnnAssign)) or n.stmt.value is None:
+                continue
+            if not any(_attr_is(x, "__code__") and not _attr_is(getattr_norm(x)[0], "fn", "self") for x in ast.walk(n.stmt.value)):
+                continue
+            for t, pol in S4.guards(n.id):
+                ta = S4.alts(t, S4.node_of(t)) if S4.node_of(t) is not None else [t]
+                exist = isinstance(t, ast.Compare) and len(t.ops) == 1 and isinstance(t.ops[0], (ast.Is, ast.IsNot)) \
+                    and isinstance(t.comparators[0], ast.Constant) and t.comparators[0].value is None \
+                    and pol == isinstance(t.ops[0], ast.IsNot)
+                exist = exist or (pol and not isinstance(t, ast.Compare) and all(has_attr(a, "parent_lambda") or _has_cyc(a) for a in ta))
+                nocache = _nocache_atom(t) is not None
+                if not (exist or nocache):
+                    bad.append(f"an ancestor's contribution to the key is conditional on `{unparse(orig(t))[:60]}`")
     ctx.check(not bad, f"{f4.key}:key-components", "; ".join(sorted(set(bad))) + " -- two statements differing in a closure column share one compiled form",
               "code + closure key of the element and of every parent", loc(f4))
     ext = [c for c in calls_in(f4.node) if isinstance(c.func, ast.Attribute) and c.func.attr in ("extend", "__iadd__")
